@@ -226,7 +226,7 @@ def bounded(tier, seed):
 	# every ordered pair of library steps (the order of opens within one process matters), then random longer histories
 	libs = [s for s in STEPS if s.startswith('lib_')]
 	cases += [{'steps': [a, b]} for a in libs for b in libs if a != b and (tier != 'quick' or 'sessionmaker' in a or 'sessionmaker' in b or rnd.random() < .25)]
-	for _ in range(12 if tier == 'quick' else 150):
+	for _ in range(12 if tier == 'quick' else 400):
 		cases.append({'steps': [rnd.choice(STEPS) for _ in range(rnd.randrange(3, 8))]})
 	n, failures, sample = 0, [], []
 	for c in cases:
